@@ -611,9 +611,10 @@ func (h *Sources) match(match *core.Line, cur *core.Cursor, usePos, fwd, regex b
 			return line, pos, found
 		}
 
+		// (The cursor position counts characters, not bytes.)
 		cline := string(*match)
 		if cur != nil && cur.Pos() < match.Len() {
-			cline = cline[:cur.Pos()]
+			cline = string((*match)[:cur.Pos()])
 		}
 
 		// Matching: either as substring (regex) or since beginning.
